@@ -49,8 +49,8 @@ func (v *Validator) IsValidOriginalDocument(payload []byte) error {
 		return err
 	}
 
-	// The document must NOT have the id property
-	if doc.ID() != "" {
+	// The document must NOT have the id property (of whatever JSON type)
+	if _, ok := doc[document.IDProperty]; ok {
 		return errors.New("document must NOT have the id property")
 	}
 
